@@ -8,6 +8,15 @@
 //! Requests: counts 2..=30 and 31, 50, 64, 100, 101, 120 (single segments: every count 2..=130); spacings and maximum
 //! spacings from a fixed relative and absolute set; simplification tolerances from a fixed set (incl. closed rings of
 //! extent ~0.02 with e = 1e-3 and 1e-2); gap filling on 2D / 3D point lists incl. oblique gaps.
+//! NEAR-MULTIPLE requests: every family x maximum spacings / spacings m = (L - d)/k, L/k, (L + d)/k for k in
+//! {1..=6, 10, 17} and d in {tol/2, tol, 1e-6 L, 1e-9 L, 1e-11 L} (the total length exceeds a whole number of spacings by
+//! at most the curve tolerance, and by tiny fractions), plus 2D/3D straight and bent curves built with
+//! L = k*m + d for m in {2.5, 1, 0.3}, tol in {1e-4, 1e-6} (e.g. L = 10.00005, tol = 1e-4, max 2.5).
+//! TINY EDGES: curves of ~1300 edges shorter than 1e-6 (total length ~1e-3, tolerance 1e-9 below the edge length) and
+//! unit-size curves with a dense stretch of 64 such edges around L/2, 2D and 3D.
+//! SEAM IN A STRAIGHT RUN: closed 4x2 rectangle outlines (4 vertices per unit) and the dense octagon ring started at EVERY
+//! vertex (so the seam lies on corners and inside straight runs), naturally closed / force-closed (2D) and closed (3D),
+//! simplified with e in {0, 2^-10, 0.01, 2^-5, 0.25} x scale.
 //! The oracle is dimension-free brute force on [f64; 3] copies of the vertices.
 use super::Report;
 use crate::common::points::{evenly_spaced_points_between, fill_gaps, ramer_douglas_peucker};
@@ -416,14 +425,16 @@ fn check_fill(r: &mut Report, pts: &[P], dim: usize, max: f64) {
         guarded(|| fill_gaps(&v, max)).map(|o| o.iter().map(p3).collect::<Vec<P>>())
     };
     let out = match res { Ok(v) => v, Err(why) => { r.check(false, "fill_gaps succeeds (no panic)", || format!("{} -> {}", desc(), why)); return; } };
+    // long results are abbreviated in failure messages
+    let show = |o: &Vec<P>| if o.len() <= 40 { format!("{:?}", o) } else { format!("{:?} .. {:?} ({} points)", &o[..6], &o[o.len() - 2..], o.len()) };
     if pts.len() < 2 { r.check(out == pts, "fill_gaps of fewer than two points returns them unchanged", desc); return; }
     let scale = extent(pts).max(max);
     // all original points kept, in order
     let idx = subsequence(&out, pts);
-    r.check(idx.is_some() && out[0] == pts[0] && out[out.len() - 1] == pts[pts.len() - 1], "fill_gaps keeps all original points in order (first and last included)", || format!("{} -> {:?}", desc(), out));
+    r.check(idx.is_some() && out[0] == pts[0] && out[out.len() - 1] == pts[pts.len() - 1], "fill_gaps keeps all original points in order (first and last included)", || format!("{} -> {}", desc(), show(&out)));
     // no consecutive pair farther apart than max
     let worst = (0..out.len() - 1).map(|i| d(&out[i], &out[i + 1])).fold(0.0, f64::max);
-    r.check(worst <= max * (1.0 + 1e-12) + 1e-12 * scale, "fill_gaps leaves no consecutive pair farther apart than max", || format!("{} -> a consecutive pair is {:?} apart: {:?}", desc(), worst, out));
+    r.check(worst <= max * (1.0 + 1e-12) + 1e-12 * scale, "fill_gaps leaves no consecutive pair farther apart than max", || format!("{} -> a consecutive pair is {:?} apart: {}", desc(), worst, show(&out)));
     // inserted count per gap is minimal, inserted points evenly spaced on the segment.  The original points are matched
     // greedily from the left: with repeated points (zero gaps) the match is still the construction order.
     if let Some(idx) = idx {
@@ -437,8 +448,8 @@ fn check_fill(r: &mut Report, pts: &[P], dim: usize, max: f64) {
                 if d(&e, &out[idx[i] + k]) > 1e-12 * scale { ok_even = false; bad = (i, n); }
             }
         }
-        r.check(ok_min, "fill_gaps inserts the least n with d/(n+1) <= max into every gap", || format!("{} -> gap {} got {} points: {:?}", desc(), bad.0, bad.1, out));
-        r.check(ok_even, "fill_gaps: inserted points are evenly spaced on the segment between their neighbours", || format!("{} -> gap {}: {:?}", desc(), bad.0, out));
+        r.check(ok_min, "fill_gaps inserts the least n with d/(n+1) <= max into every gap", || format!("{} -> gap {} got {} points: {}", desc(), bad.0, bad.1, show(&out)));
+        r.check(ok_even, "fill_gaps: inserted points are evenly spaced on the segment between their neighbours", || format!("{} -> gap {}: {}", desc(), bad.0, show(&out)));
     }
 }
 
@@ -490,8 +501,111 @@ fn resample_all(r: &mut Report, cv: &Cv, sd: &str, straight: bool, counts: &[usi
     }
 }
 
+/// requests whose spacing is a whole fraction of the total length up to the curve tolerance / a tiny fraction
+fn near_multiple_requests(r: &mut Report, cv: &Cv, sd: &str, straight: bool) {
+    let total = cv.length();
+    let closed = cv.closed();
+    let tol = cv.tol();
+    let mut deltas = vec![0.0, tol * 0.5, tol, 1e-6 * total, 1e-9 * total, 1e-11 * total];
+    deltas.retain(|d| *d < total * 0.01);
+    for k in [1usize, 2, 3, 4, 5, 6, 10, 17] {
+        if closed && k < 3 { continue; }
+        for &dl in deltas.iter() {
+            for sign in [-1.0, 1.0] {
+                if dl == 0.0 && sign > 0.0 { continue; }
+                let m = (total + sign * dl) / k as f64;
+                check_resample(r, cv, sd, straight, Mode::ByMaxSpacing(m));
+                // fixed spacing: a single sample (k == 1 with m >= L) is ill-posed
+                if m < total && !(closed && m > total / 3.0) { check_resample(r, cv, sd, straight, Mode::BySpacing(m)); }
+            }
+        }
+    }
+}
+
+/// curves built so that L = k*m + d exactly as the statement's example (L = 10.00005, tol = 1e-4, max 2.5)
+fn near_multiple_lengths(r: &mut Report) {
+    for &m in [2.5f64, 1.0, 0.3].iter() { for k in [1usize, 4, 7] { for &tol in [1e-4f64, 1e-6].iter() { for &dl in [tol * 0.5, tol * 0.99, tol / 1024.0, tol * 2.0].iter() {
+        let total = k as f64 * m + dl;
+        for dim in [2usize, 3] { for bent in [false, true] {
+            // straight along an axis, or an L with legs 0.25*m and the rest (both legs axis-parallel: lengths add exactly up to rounding)
+            let a = 0.25 * m;
+            let pts: Vec<P> = match (dim, bent) {
+                (2, false) => vec![[0.0, 0.0, 0.0], [total, 0.0, 0.0]],
+                (2, true) => vec![[0.0, 0.0, 0.0], [a, 0.0, 0.0], [a, total - a, 0.0]],
+                (_, false) => vec![[0.0, 0.0, 0.0], [0.0, 0.0, total]],
+                (_, true) => vec![[0.0, 0.0, 0.0], [0.0, a, 0.0], [0.0, a, total - a]],
+            };
+            let s = Shape { name: format!("length {} * {:?} + {:?}", k, m, dl), dim, pts, fc: false, straight: !bent, tol, unit: m };
+            let cv = match s.build() { Some(c) => c, None => continue };
+            let sd = s.desc();
+            check_resample(r, &cv, &sd, !bent, Mode::ByMaxSpacing(m));
+            check_resample(r, &cv, &sd, !bent, Mode::ByMaxSpacing(m * 0.5));
+            if k > 1 { check_resample(r, &cv, &sd, !bent, Mode::BySpacing(m)); }
+            check_resample(r, &cv, &sd, !bent, Mode::ByCount(k + 1));
+        } }
+    } } } }
+}
+
+/// polyline from cyclic edge vectors, every coordinate multiplied by h
+fn chain(n: usize, steps: &[(f64, f64, f64)], h: f64, start: P) -> Vec<P> {
+    let (mut x, mut y, mut z) = (0.0, 0.0, 0.0);
+    let mut v = vec![start];
+    for k in 0..n { let s = steps[k % steps.len()]; x += s.0; y += s.1; z += s.2; v.push([start[0] + x * h, start[1] + y * h, start[2] + z * h]); }
+    v
+}
+
+/// edges shorter than 1e-6 with a curve tolerance below that
+fn tiny_edge_shapes() -> Vec<Shape> {
+    let mut out = vec![];
+    let (h2, h3) = (2f64.powi(-23), 2f64.powi(-24));
+    // ~1300 edges, total length ~1e-3 (2D: 5 * 2^-23 = 6.0e-7 each, 3D: 13 * 2^-24 = 7.7e-7 each), bent every 100 edges
+    let s2: Vec<(f64, f64, f64)> = (0..1300).map(|k| match (k / 100) % 3 { 0 => (3.0, 4.0, 0.0), 1 => (4.0, -3.0, 0.0), _ => (5.0, 0.0, 0.0) }).collect();
+    let s3: Vec<(f64, f64, f64)> = (0..1300).map(|k| match (k / 100) % 3 { 0 => (3.0, 4.0, 12.0), 1 => (12.0, 3.0, -4.0), _ => (4.0, -12.0, 3.0) }).collect();
+    out.push(Shape { name: "1300 tiny edges 2D".into(), dim: 2, pts: chain(1300, &s2, h2, [0.0; 3]), fc: false, straight: false, tol: 1e-9, unit: h2 });
+    out.push(Shape { name: "1300 tiny edges 3D".into(), dim: 3, pts: chain(1300, &s3, h3, [0.0; 3]), fc: false, straight: false, tol: 1e-9, unit: h3 });
+    // unit-size: leg of length 1, 64 tiny edges, leg of length 1 + one tiny edge (so that L/2 falls inside a tiny edge)
+    let mut d2v = vec![[-1.0, 0.0, 0.0]];
+    d2v.extend(chain(64, &[(3.0, 4.0, 0.0), (4.0, 3.0, 0.0)], h2, [0.0; 3]));
+    let e = *d2v.last().unwrap(); d2v.push([e[0], e[1] + 1.0 + 5.0 * h2, 0.0]);
+    out.push(Shape { name: "unit legs around 64 tiny edges 2D".into(), dim: 2, pts: d2v, fc: false, straight: false, tol: 1e-9, unit: 1.0 });
+    let mut d3v = vec![[-1.0, 0.0, 0.0]];
+    d3v.extend(chain(64, &[(3.0, 4.0, 12.0), (4.0, 12.0, 3.0)], h3, [0.0; 3]));
+    let e = *d3v.last().unwrap(); d3v.push([e[0], e[1], e[2] + 1.0 + 13.0 * h3]);
+    out.push(Shape { name: "unit legs around 64 tiny edges 3D".into(), dim: 3, pts: d3v, fc: false, straight: false, tol: 1e-9, unit: 1.0 });
+    out
+}
+
+/// closed outlines started at every one of their vertices: the seam on corners and inside straight runs
+fn seam_shapes() -> Vec<Shape> {
+    let mut out = vec![];
+    // 4 x 2 rectangle, 4 vertices per unit of length
+    let mut rect: Vec<P> = vec![];
+    for k in 0..16 { rect.push([k as f64 * 0.25, 0.0, 0.0]); }
+    for k in 0..8 { rect.push([4.0, k as f64 * 0.25, 0.0]); }
+    for k in 0..16 { rect.push([4.0 - k as f64 * 0.25, 2.0, 0.0]); }
+    for k in 0..8 { rect.push([0.0, 2.0 - k as f64 * 0.25, 0.0]); }
+    let mut oct = ring2(); oct.pop();
+    for (name, ring) in [("rectangle 4x2 outline", rect), ("octagon ring", oct)] {
+        let n = ring.len();
+        for start in 0..n {
+            for k in [0i32, -9, 5] {
+                // the small and large scales only for every third seam position
+                if k != 0 && start % 3 != 1 { continue; }
+                let f = 2f64.powi(k);
+                let open: Vec<P> = (0..n).map(|i| { let q = ring[(i + start) % n]; [q[0] * f, q[1] * f, 0.0] }).collect();
+                let mut rep = open.clone(); rep.push(open[0]);
+                out.push(Shape { name: format!("{} from vertex {}, closed, x 2^{}", name, start, k), dim: 2, pts: rep.clone(), fc: false, straight: false, tol: 1e-7 * f, unit: f });
+                out.push(Shape { name: format!("{} from vertex {}, force-closed, x 2^{}", name, start, k), dim: 2, pts: open, fc: true, straight: false, tol: 1e-7 * f, unit: f });
+                // 3D: tilted out of the plane (z = x / 2)
+                out.push(Shape { name: format!("{} from vertex {}, tilted, closed, x 2^{}", name, start, k), dim: 3, pts: rep.iter().map(|q| [q[0], q[1], q[0] * 0.5]).collect(), fc: false, straight: false, tol: 1e-7 * f, unit: f });
+            }
+        }
+    }
+    out
+}
+
 const OPS: [&str; 7] = [".resample ByCount", ".resample BySpacing", ".resample ByMaxSpacing", ".simplify", "ramer_douglas_peucker: tol =", "fill_gaps: max_dist =", "evenly_spaced_points_between: n ="];
-const BOUND: &str = "2D/3D curves: 17 families with small integer/dyadic vertices (open, naturally closed, force-closed, uneven vertex density) x power-of-two scales with total length in [1e-3, 1.3e3], plus straight segments of 45 lengths (1..20, 0.1..0.9, 1e-3..1e3) x every count 2..=130; resample by count (2..=31, 50, 64, 100, 101, 120), by spacing and by max spacing (10 relative + 9 absolute values); simplify with e in {0, 2^-10, 2^-7, 2^-5, 1/4, 1} x scale plus 1e-3 / 1e-2 on closed rings of extent ~0.02, and on resampled (dense) copies; fill_gaps / evenly_spaced_points_between on 2D/3D integer-grid point pairs and chains (incl. oblique gaps) x 11 maxima x 3 scales";
+const BOUND: &str = "2D/3D curves: 17 families with small integer/dyadic vertices (open, naturally closed, force-closed, uneven vertex density) x power-of-two scales with total length in [1e-3, 1.3e3], plus straight segments of 45 lengths (1..20, 0.1..0.9, 1e-3..1e3) x every count 2..=130; resample by count (2..=31, 50, 64, 100, 101, 120), by spacing and by max spacing (10 relative + 9 absolute values); simplify with e in {0, 2^-10, 2^-7, 2^-5, 1/4, 1} x scale plus 1e-3 / 1e-2 on closed rings of extent ~0.02, and on resampled (dense) copies; fill_gaps / evenly_spaced_points_between on 2D/3D integer-grid point pairs and chains (incl. oblique gaps) x 11 maxima x 3 scales, and single gaps of 1000 .. 12000 times the maximum; NEAR-MULTIPLE: every family x (max) spacings (L -/+ d)/k, k in {1..6,10,17}, d in {0, tol/2, tol, 1e-6 L, 1e-9 L, 1e-11 L}, and 2D/3D straight / bent curves of length k*m + d (m in {2.5, 1, 0.3}, k in {1,4,7}, tol in {1e-4,1e-6}, d in {tol/2, 0.99 tol, tol/1024, 2 tol}); TINY EDGES: 2D/3D curves of 1300 edges of length 6e-7 / 7.7e-7 (tol 1e-9) and unit-size curves with 64 such edges around L/2; SEAM IN A STRAIGHT RUN: 4x2 rectangle outline (48 vertices) and dense octagon ring (24 vertices) started at every vertex, closed / force-closed / tilted 3D, simplified with e in {0, 2^-10, 0.01, 2^-5, 0.25} x scale";
 pub fn run() -> Option<Report> { Some(dog::run(BOUND, &OPS, run_inner)) }
 
 fn run_inner() -> Report {
@@ -523,7 +637,31 @@ fn run_inner() -> Report {
         }
     }
 
+    // near-multiple spacings on every family (three scales), and lengths built as k*m + d
+    for s in scaled_shapes(&[-9, 0, 6]).iter() {
+        let cv = match s.build() { Some(c) => c, None => continue };
+        near_multiple_requests(&mut r, &cv, &s.desc(), s.straight);
+    }
+    near_multiple_lengths(&mut r);
+    // edges shorter than 1e-6
+    for s in tiny_edge_shapes().iter() {
+        let cv = match s.build() { Some(c) => c, None => { r.check(false, "a curve with edges shorter than 1e-6 and a tolerance below the edge length can be built", || s.name.clone()); continue } };
+        r.check(cv.pts().len() == s.pts.len(), "a curve with edges shorter than 1e-6 and a tolerance below the edge length keeps all its vertices", || s.name.clone());
+        let sd = if s.pts.len() > 100 { format!("{} [{} vertices, first {:?}, edge vectors cycle as in tiny_edge_shapes(), tol={:?}]", s.name, s.pts.len(), &s.pts[..3], s.tol) } else { s.desc() };
+        resample_all(&mut r, &cv, &sd, false, &[2, 3, 4, 5, 7, 9, 11, 16, 17, 33, 50, 64, 100, 101, 1000, 2601]);
+        near_multiple_requests(&mut r, &cv, &sd, false);
+    }
+
     // ---------------------------------------------------------------- simplification
+    for s in seam_shapes().iter() {
+        let cv = match s.build() { Some(c) => c, None => continue };
+        let src = cv.pts();
+        r.check(cv.closed(), "outline repeated at its first vertex / force-closed is a closed curve", || s.desc());
+        for e in [0.0, 1.0 / 1024.0, 0.01, 1.0 / 32.0, 0.25] {
+            check_simplify(&mut r, &cv, &s.desc(), e * s.unit);
+            check_rdp_raw(&mut r, &src, s.dim, e * s.unit);
+        }
+    }
     let sshapes = scaled_shapes(&[-12, -8, -3, 0, 4, 6]);
     for s in sshapes.iter() {
         let cv = match s.build() { Some(c) => c, None => continue };
@@ -598,6 +736,14 @@ fn run_inner() -> Report {
         for n in 0..=6usize {
             for (a, b) in [([0.0, 0.0, 0.0], [2.0 * f, 0.0, 0.0]), ([0.0, 0.0, 0.0], [f, f, 0.0]), ([f, -f, 0.0], [-3.0 * f, 4.0 * f, 0.0]), ([f, f, 0.0], [f, f, 0.0])] { check_between(&mut r, &a, &b, 2, n); }
             for (a, b) in [([0.0, 0.0, 0.0], [f, -f, f]), ([f, 2.0 * f, 3.0 * f], [-f, 0.5 * f, 7.0 * f])] { check_between(&mut r, &a, &b, 3, n); }
+        }
+    }
+    // single gaps of 1000 .. 12000 times the maximum (total lengths 1e-3 .. 1e3)
+    for (a, b, m) in [([0.0, 0.0, 0.0], [1000.0, 0.0, 0.0], 0.5), ([0.0, 0.0, 0.0], [0.0, 300.0, 400.0], 0.25), ([0.0, 0.0, 0.0], [1.25, 0.0, 0.0], 0.0009765625), ([1.0, 1.0, 0.0], [1.0, 7.0, 8.0], 0.001), ([0.0, 0.0, 0.0], [0.0009765625, 0.0, 0.0], 0.0000003), ([0.0, 0.0, 0.0], [768.0, 1024.0, 0.0], 0.125)] {
+        for dim in [2usize, 3] {
+            if dim == 2 && (a[2] != 0.0 || b[2] != 0.0) { continue; }
+            check_fill(&mut r, &[a, b], dim, m);
+            check_fill(&mut r, &[b, a, b], dim, m * 1.5);
         }
     }
     // the vertex lists of the curve families as gap-filling input
